@@ -140,7 +140,7 @@ Definition sp_new : pmap := Eval vm_compute in
 Definition compare_params (self incoming : pmap) : list (bytes * bytes) :=
   flat_map (fun k =>
     match pget k incoming, pget k self with
-    | Some iv, Some v => if beq v iv then [] else [(k, iv)]
+    | Some iv, Some v => if beq (lower v) (lower iv) then [] else [(k, iv)]
     | _, _ => []
     end) TRACKED.
 
@@ -194,7 +194,8 @@ Record backend := mkB { b_sess : pmap; b_loc : pmap; b_snap : option pmap; b_txn
 Definition eff (b : backend) (k : bytes) : option bytes :=
   match pget k (b_loc b) with Some v => Some v | None => pget k (b_sess b) end.
 
-Inductive tag := TgSet | TgBegin | TgCommit | TgRollback | TgReset | TgSelect.
+Inductive tag := TgSet | TgBegin | TgCommit | TgRollback | TgReset | TgSelect
+  | TgPrepare | TgDeallocAll | TgDiscardAll | TgOther.
 Inductive revent := RS (k v : bytes) | RC (t : tag) | RE | RZ (t : txn).
 
 Definition is_re (e : revent) : bool := match e with RE => true | _ => false end.
@@ -207,7 +208,10 @@ Definition report (b b' : backend) : list revent :=
 Inductive stmt :=
 | SBegin | SCommit | SRollback
 | SSet (local : bool) (k v : bytes)
-| SReset (k : bytes) | SResetAll | SSelect | SFail.
+| SReset (k : bytes) | SResetAll | SSelect | SFail
+| SNoop (t : tag)      (* a statement without effect on the GUC table, answered with this tag: SET ROLE (TgSet),
+                          RESET ROLE (TgReset), PREPARE (TgPrepare), DEALLOCATE x / COPY (TgOther), DEALLOCATE ALL *)
+| SDiscardAll.         (* DISCARD ALL: every GUC back to its default; refused inside a transaction block *)
 
 Definition scs_off (b : backend) : bool :=
   match eff b K_scs with Some v => beq v V_off | None => false end.
@@ -219,27 +223,28 @@ Definition pset_all (m : pmap) (l : list (bytes * bytes)) : pmap :=
   fold_left (fun m kv => pset (fst kv) (snd kv) m) l m.
 
 (** ** pgcat's view of one server connection *)
-Record pgs := mkP { bel : pmap; need_set : bool; in_txn : bool }.
+Record pgs := mkP { bel : pmap; need_set : bool; in_txn : bool; need_prep : bool }.
 Record srv := mkS { truth : backend; pg : pgs }.
 
 Definition on_param_status (cm : option pmap) (p : pgs) (k v : bytes) : option pmap * pgs :=
   (match cm with Some m => Some (set_param m k v false) | None => None end,
-   mkP (set_param (bel p) k v false) (need_set p) (in_txn p)).
+   mkP (set_param (bel p) k v false) (need_set p) (in_txn p) (need_prep p)).
 
 Definition on_event (cm : option pmap) (p : pgs) (e : revent) : option pmap * pgs :=
   match e with
   | RS k v => on_param_status cm p k v
-  | RC TgSet => (cm, mkP (bel p) (need_set p || negb (in_txn p)) (in_txn p))
-  | RC TgCommit => (cm, mkP (bel p) (need_set p) false)
-  | RC TgRollback => (cm, mkP (bel p) (need_set p) false)
-  | RZ t => (cm, mkP (bel p) (need_set p) (negb (is_ti t)))
+  | RC TgSet => (cm, mkP (bel p) (need_set p || negb (in_txn p)) (in_txn p) (need_prep p))
+  | RC TgCommit => (cm, mkP (bel p) (need_set p) false (need_prep p))
+  | RC TgRollback => (cm, mkP (bel p) (need_set p) false (need_prep p))
+  | RC TgPrepare => (cm, mkP (bel p) (need_set p) (in_txn p) true)
+  | RZ t => (cm, mkP (bel p) (need_set p) (negb (is_ti t)) (need_prep p))
   | _ => (cm, p)
   end.
 
 Definition recv_all (cm : option pmap) (p : pgs) (evs : list revent) : option pmap * pgs :=
   fold_left (fun st e => on_event (fst st) (snd st) e) evs (cm, p).
 
-Definition is_unclean (p : pgs) : bool := in_txn p || need_set p.
+Definition is_unclean (p : pgs) : bool := in_txn p || need_set p || need_prep p.
 
 Definition tvals (f : bytes -> option bytes) : list (option bytes) := map f TRACKED.
 
@@ -252,7 +257,7 @@ Inductive ev :=
 | EvSync (c s : nat) (d : list (bytes * bytes))
 | EvStmt (c s : nat) (checkout : bool) (dirty : list bytes)
          (backend_vals client_vals est_vals : list (option bytes))
-| EvClean (s : nat) (rollback reset_all : bool)
+| EvClean (s : nat) (rollback reset_all dealloc_all : bool)
 | EvReplaced (s : nat).
 
 Record world := mkW {
@@ -325,6 +330,13 @@ Section Server.
       end
     | SSelect => match b_txn b with TE => (b, [RE]) | _ => (b, [RC TgSelect]) end
     | SFail => match b_txn b with TE => (b, [RE]) | _ => fail b end
+    | SNoop t => match b_txn b with TE => (b, [RE]) | _ => (b, [RC t]) end
+    | SDiscardAll =>
+      match b_txn b with
+      | TE => (b, [RE])
+      | TT => fail b
+      | TI => done b (mkB bdef [] (b_snap b) (b_txn b)) TgDiscardAll
+      end
     end.
 
   (** a SET of an untracked GUC that PostgreSQL runs inside a transaction block: outside the
@@ -378,17 +390,22 @@ Section Server.
     | d =>
       let '(b', evs) := be_sql (truth s) (gen_batch d) in
       let p' := snd (recv_all None (pg s) evs) in
-      mkS b' (mkP (bel p') false (in_txn p'))
+      mkS b' (mkP (bel p') false (in_txn p') false)
     end.
 
-  Definition checkin (s : srv) : srv * (bool * bool) :=
+  (** "RESET ROLE;[RESET ALL;][DEALLOCATE ALL;]" *)
+  Definition cleanup_stmts (ra da : bool) : list stmt :=
+    SNoop TgReset :: (if ra then [SResetAll] else []) ++ (if da then [SNoop TgDeallocAll] else []).
+
+  Definition checkin (s : srv) : srv * (bool * (bool * bool)) :=
     let rb := in_txn (pg s) in
     let s1 := if rb then srv_query s [SRollback] else s in
     let ra := need_set (pg s1) in
-    let s2 := if ra then (let s' := srv_query s1 [SResetAll] in
-                          mkS (truth s') (mkP (bel (pg s')) false (in_txn (pg s'))))
+    let da := need_prep (pg s1) in
+    let s2 := if ra || da then (let s' := srv_query s1 (cleanup_stmts ra da) in
+                                mkS (truth s') (mkP (bel (pg s')) false (in_txn (pg s')) false))
               else s1 in
-    (s2, (rb, ra)).
+    (s2, (rb, (ra, da))).
 
   (** untracked GUCs whose effective value is not the session default *)
   Definition dirty_keys (b : backend) : list bytes :=
@@ -397,7 +414,7 @@ Section Server.
 
   Definition fresh_backend : backend := mkB bdef [] None TI.
   Definition pool : pmap := set_from_list sp_new bdef true.
-  Definition fresh_srv : srv := mkS fresh_backend (mkP pool false false).
+  Definition fresh_srv : srv := mkS fresh_backend (mkP pool false false false).
 
   (** computable guards used by the theorems *)
   Definition has5 (m : pmap) : bool :=
@@ -440,9 +457,9 @@ Section World.
 
   (** release of server [s] by client [c] through checkin_cleanup *)
   Definition release (w : world) (c s : nat) (sv : srv) (cl : option cli) (oos : bool) (lg : list ev) : world :=
-    let '(sv', (rb, ra)) := checkin valid (bdefs s) sv in
+    let '(sv', (rb, (ra, da))) := checkin valid (bdefs s) sv in
     mkW (upd (w_srv w) s sv') (upd (w_cli w) c cl) (upd (w_owner w) s None) oos
-        (log_if (rb || ra) (EvClean s rb ra) lg).
+        (log_if (rb || ra || da) (EvClean s rb ra da) lg).
 
   Definition step (w : world) (o : op) : world :=
     match o with
@@ -606,7 +623,7 @@ Inductive cev :=
 | CSync (c s : nat) (d : list (nat * nat))
 | CStmt (c s : nat) (checkout : bool) (dirty : list nat) (backend_vals : list (option nat))
         (backend_eq_client client_eq_est : bool)
-| CClean (s : nat) (rollback reset_all : bool)
+| CClean (s : nat) (rollback reset_all dealloc_all : bool)
 | CReplaced (s : nat).
 
 Fixpoint compact (tbl : list bytes) (l : list ev) : list bytes * list cev :=
@@ -620,7 +637,7 @@ Fixpoint compact (tbl : list bytes) (l : list ev) : list bytes * list cev :=
     | EvStmt c s co dk bv cv evv =>
       let '(t1, d) := intern_list tbl dk in let '(t2, b) := intern_optl t1 bv in
       let '(t, cs) := compact t2 r in (t, CStmt c s co d b (vals_eqb bv cv) (vals_eqb cv evv) :: cs)
-    | EvClean s rb ra => let '(t, cs) := compact tbl r in (t, CClean s rb ra :: cs)
+    | EvClean s rb ra da => let '(t, cs) := compact tbl r in (t, CClean s rb ra da :: cs)
     | EvReplaced s => let '(t, cs) := compact tbl r in (t, CReplaced s :: cs)
     end
   end.
